@@ -21,7 +21,10 @@ namespace sim
     bool bernoulli(double p) { return real() < p; }
   };
 
-  static constexpr int MAX_TASKS = 128;
+#ifndef SIM_MAX_TASKS
+#define SIM_MAX_TASKS 128
+#endif
+  static constexpr int MAX_TASKS = SIM_MAX_TASKS;   // per run, finished tasks included (a build-time knob: vector clocks have this length)
   typedef std::vector<uint32_t> VClock;
 
   struct Options
@@ -69,6 +72,8 @@ namespace sim
   // ---- inside tasks --------------------------------------------------------------------------------
   bool active();                 // simulation running and calling thread is a managed task
   int self();
+  // the task that created the given task through the thread seam (-1 for tasks spawned by the harness)
+  int parent_of(int task);
   int num_tasks();
   void yield(const char* tag);   // scheduling point, task stays enabled
   void hot();                    // hint: in-flight state was just created; the next scheduling decision is biased towards a preemption
